@@ -172,20 +172,41 @@ class SimProcess:
 
 
 class SimAsyncResult:
-    def __init__(self, ok, value):
+    """Result of an asynchronous submission.  The job has already been executed (workers cannot observe each
+    other, so executing at submission is a legal schedule), but it only becomes *visible* to the parent when the
+    simulated clock reaches its completion time: ready(), wait(timeout) and get(timeout) are time-aware."""
+
+    def __init__(self, ok, value, done_at=0.0, world=None):
         self._ok = ok
         self._value = value
+        self._done_at = done_at
+        self._w = world
 
     def ready(self):
-        return True
+        return self._w is None or self._w.now >= self._done_at - 1e-12
 
     def successful(self):
+        if not self.ready():
+            raise ValueError('%r not ready' % (self,))
         return self._ok
 
     def wait(self, timeout=None):
+        w = self._w
+        if w is None or self.ready():
+            return None
+        if timeout is None:
+            w.now = self._done_at
+        else:
+            w.now = min(self._done_at, w.now + max(0.0, float(timeout)))
+            if not self.ready():
+                w.probe('async_wait_timed_out')
         return None
 
     def get(self, timeout=None):
+        self.wait(timeout)
+        if not self.ready():
+            import multiprocessing
+            raise multiprocessing.TimeoutError
         if self._ok:
             return self._value
         raise self._value
@@ -237,8 +258,8 @@ class SimPool:
                 p.free_at = w.now + 0.001 * w.ch.pick('sched.latency', 4)
             self.workers.append(p)
         slow = cfg.get('slow_worker', False)
-        if slow and self.nproc > 1:
-            k = w.ch.pick('sched.slow_worker', self.nproc)
+        if slow:
+            k = w.ch.pick('sched.slow_worker', self.nproc) if self.nproc > 1 else 0
             self.workers[k].slow = 50
             w.fault('slow_worker', pool=self.id, worker=k)
 
@@ -290,7 +311,7 @@ class SimPool:
     def _duration(self, worker, ntasks):
         w = self.w
         model = w.poolcfg.get('durmodel', 'unit')
-        if model == 'unit' or len(self.workers) == 1:
+        if model == 'unit':
             d = 1
         elif model == 'uniform':
             d = 1 + w.ch.pick('sched.dur', 4)
@@ -319,34 +340,55 @@ class SimPool:
         if old.tasks_done > 0:
             w.probe('respawn_after_work')
 
-    def _run_batch(self, func, tasks, chunksize, star, kind):
-        """Execute tasks; return (results in input order as (ok, value), completion order)."""
+    def _run_batch(self, func, tasks, chunksize, star, kind, lazy=False, block=True):
+        """Execute tasks; return (results in input order as (ok, value), completion order, completion times).
+
+        tasks is a list (map / starmap: every argument exists before anything is pickled) or, with lazy=True, an
+        iterator consumed one chunk at a time (imap: a chunk is pickled before the next one is generated)."""
         w = self.w
         self._check_running()
         if w.cur_proc is not None:
             raise W.HarnessError('nested pool use inside a worker')
-        n = len(tasks)
         nw = len(self.workers)
-        if chunksize is None:
-            chunksize, extra = divmod(n, nw * 4)
-            if extra:
-                chunksize += 1
-        if n == 0:
-            chunksize = 0
-        chunks = []
-        if chunksize:
-            for i in range(0, n, chunksize):
-                chunks.append(list(range(i, min(n, i + chunksize))))
-        batch = {'pool': self.id, 'id': len(w.batches), 'kind': kind, 'func': func, 'n': n,
-                 'chunksize': chunksize, 'assign': [None] * n, 'order': [], 'tasks': [None] * n,
-                 'start': self.start, 'nproc': nw, 'respawns': [], 'seq': w.seq}
+        if not lazy:
+            tasks = list(tasks)
+            n = len(tasks)
+            if chunksize is None:
+                chunksize, extra = divmod(n, nw * 4)
+                if extra:
+                    chunksize += 1
+            if n == 0:
+                chunksize = 0
+            it = iter(tasks)
+        else:
+            n = None
+            it = iter(tasks)
+            if chunksize is None or chunksize < 1:
+                chunksize = 1
+        batch = {'pool': self.id, 'id': len(w.batches), 'kind': kind, 'func': func, 'n': n or 0,
+                 'chunksize': chunksize, 'assign': [], 'order': [], 'tasks': [],
+                 'start': self.start, 'nproc': nw, 'respawns': [], 'seq': w.seq, 'done_at': []}
         w.batches.append(batch)
         w.log('pool.batch', pool=self.id, batch=batch['id'], kind=kind, n=n, chunksize=chunksize,
               func=getattr(func, '__name__', None) or W.canon(func))
-        results = [None] * n
+        results = []
         completions = []   # (time, dispatch_no, chunk)
         t0 = w.now
-        for cno, chunk in enumerate(chunks):
+        cno = -1
+        nxt = 0
+        import itertools
+        while chunksize:
+            args_list = list(itertools.islice(it, chunksize))
+            if not args_list:
+                break
+            cno += 1
+            chunk = list(range(nxt, nxt + len(args_list)))
+            nxt += len(args_list)
+            for _ in chunk:
+                batch['assign'].append(None)
+                batch['tasks'].append(None)
+                batch['done_at'].append(None)
+                results.append(None)
             nresp = w.faults.get('respawn', 0)
             self._maybe_respawn()
             if w.faults.get('respawn', 0) != nresp:
@@ -363,14 +405,15 @@ class SimPool:
                     raise W.HarnessError('forced assignment splits a chunk')
             p = self.workers[wi]
             start_t = max(p.free_at, t0)
-            w.now = max(w.now, start_t)
+            if block:
+                w.now = max(w.now, start_t)
             w.log('pool.dispatch', pool=self.id, batch=batch['id'], chunk=cno, worker=p._identity[0],
                   tasks=chunk)
             for ti in chunk:
                 batch['assign'][ti] = p._identity[0]
             # one message per chunk, as in the real pool: objects shared between the jobs of a chunk (the same
             # array in every argument tuple) stay shared after unpickling in the worker
-            outs = self._exec_chunk(p, func, [tasks[ti] for ti in chunk], star, batch['id'], chunk)
+            outs = self._exec_chunk(p, func, args_list, star, batch['id'], chunk)
             failed = None
             for ti, (ok, val, rec) in zip(chunk, outs):
                 batch['tasks'][ti] = rec
@@ -386,20 +429,23 @@ class SimPool:
                     results[tj] = (False, failed)
             dur = self._duration(p, len(chunk))
             p.free_at = start_t + dur
+            for ti in chunk:
+                batch['done_at'][ti] = p.free_at
             completions.append((p.free_at, cno, chunk))
             if self.maxtasks is not None and p.chunks_done >= self.maxtasks:
                 new = self._spawn_worker()
                 new.free_at = p.free_at
                 new.slow = p.slow
                 self.workers[wi] = new
+        batch['n'] = nxt
         completions.sort(key=lambda c: (c[0], c[1]))
-        for (t, cno, chunk) in completions:
+        for (t, cno_, chunk) in completions:
             batch['order'].extend(chunk)
-        if completions:
+        if completions and block:
             w.now = max(w.now, completions[-1][0])
         w.log('pool.done', pool=self.id, batch=batch['id'], assign=batch['assign'],
               order=batch['order'])
-        return results, batch['order']
+        return results, batch['order'], batch['done_at']
 
     def _exec_chunk(self, p, func, args, star, bid, indices):
         """Run the jobs of one chunk in worker p.  Returns [(ok, value, record)] for the jobs that ran."""
@@ -460,7 +506,7 @@ class SimPool:
     # -- public API ---------------------------------------------------------
     def starmap(self, func, iterable, chunksize=None):
         tasks = [tuple(a) for a in iterable]
-        results, order = self._run_batch(func, tasks, chunksize, True, 'starmap')
+        results, order, _ = self._run_batch(func, tasks, chunksize, True, 'starmap')
         err = self._first_failure(results, order)
         if err is not None:
             raise err
@@ -468,7 +514,7 @@ class SimPool:
 
     def map(self, func, iterable, chunksize=None):
         tasks = list(iterable)
-        results, order = self._run_batch(func, tasks, chunksize, False, 'map')
+        results, order, _ = self._run_batch(func, tasks, chunksize, False, 'map')
         err = self._first_failure(results, order)
         if err is not None:
             raise err
@@ -476,28 +522,28 @@ class SimPool:
 
     def starmap_async(self, func, iterable, chunksize=None, callback=None, error_callback=None):
         tasks = [tuple(a) for a in iterable]
-        results, order = self._run_batch(func, tasks, chunksize, True, 'starmap_async')
-        return self._async_result(results, order, callback, error_callback)
+        results, order, done = self._run_batch(func, tasks, chunksize, True, 'starmap_async', block=False)
+        return self._async_result(results, order, done, callback, error_callback)
 
     def map_async(self, func, iterable, chunksize=None, callback=None, error_callback=None):
         tasks = list(iterable)
-        results, order = self._run_batch(func, tasks, chunksize, False, 'map_async')
-        return self._async_result(results, order, callback, error_callback)
+        results, order, done = self._run_batch(func, tasks, chunksize, False, 'map_async', block=False)
+        return self._async_result(results, order, done, callback, error_callback)
 
-    def _async_result(self, results, order, callback, error_callback):
+    def _async_result(self, results, order, done, callback, error_callback):
+        when = max(done) if done else self.w.now
         err = self._first_failure(results, order)
         if err is not None:
             if error_callback is not None:
                 error_callback(err)
-            return SimAsyncResult(False, err)
+            return SimAsyncResult(False, err, when, self.w)
         vals = [v for _, v in results]
         if callback is not None:
             callback(vals)
-        return SimAsyncResult(True, vals)
+        return SimAsyncResult(True, vals, when, self.w)
 
     def imap(self, func, iterable, chunksize=1):
-        tasks = list(iterable)
-        results, order = self._run_batch(func, tasks, chunksize, False, 'imap')
+        results, order, done = self._run_batch(func, iterable, chunksize, False, 'imap', lazy=True)
 
         def gen():
             for ok, v in results:
@@ -507,8 +553,7 @@ class SimPool:
         return gen()
 
     def imap_unordered(self, func, iterable, chunksize=1):
-        tasks = list(iterable)
-        results, order = self._run_batch(func, tasks, chunksize, False, 'imap_unordered')
+        results, order, done = self._run_batch(func, iterable, chunksize, False, 'imap_unordered', lazy=True)
         if order != sorted(order):
             self.w.probe('unordered_differs')
 
@@ -526,13 +571,22 @@ class SimPool:
     def apply_async(self, func, args=(), kwds={}, callback=None, error_callback=None):
         import functools
         f = functools.partial(func, **kwds) if kwds else func
-        results, order = self._run_batch(f, [tuple(args)], 1, True, 'apply')
+        results, order, done = self._run_batch(f, [tuple(args)], 1, True, 'apply', block=False)
         ok, v = results[0]
         if ok and callback is not None:
             callback(v)
         if not ok and error_callback is not None:
             error_callback(v)
-        return SimAsyncResult(ok, v)
+        return SimAsyncResult(ok, v, done[0], self.w)
+
+    # attributes of the real class that code sometimes reads
+    @property
+    def _pool(self):
+        return list(self.workers)
+
+    @property
+    def _processes(self):
+        return self.nproc
 
     def close(self):
         if self.state == 'RUN':
